@@ -12,6 +12,7 @@ import (
 	"strings"
 	"sync"
 	"sync/atomic"
+	"syscall"
 	"time"
 
 	"verif/cli"
@@ -138,6 +139,11 @@ func c12Commands(thorough bool) []c12Cmd {
 		{"write-event", []string{"write", "event"}, c12Doc1},
 		{"write-parse", []string{"write", "parse"}, c12Doc1},
 		{"write-conv", []string{"write", "conv", "-c", "cmt"}, c12Doc1},
+		// the same bytes on every path, whatever they are: byte-order mark, CR LF, no final newline
+		{"text-conv-bom", []string{"text", "conv", "syllable"}, "\xef\xbb\xbfC[1] G_7[2]\n"},
+		{"text-conv-crlf", []string{"text", "conv", "degree"}, "1[1] ;c\r\n5_7/3[2]\r\n"},
+		{"write-bom", []string{"write", "event"}, "\xef\xbb\xbf" + c12Doc1},
+		{"write-crlf", []string{"write"}, strings.ReplaceAll(c12Doc1, "\n", "\r\n")},
 		// inputs larger than a read buffer
 		{"text-conv-degree-large", []string{"text", "conv", "degree"}, strings.Repeat("3bm7/5[1,1/2]{txt=a b} 1[2] ", 400)},
 		{"text-parse-large", []string{"text", "parse"}, strings.Repeat("C#m7/E[1] R[2] ", 700)},
@@ -268,6 +274,30 @@ func c12IOEval(e *Env, c c12IOCase, base *runOut) {
 	case "file":
 		args = append(args, writeTemp(dir, "input.txt", c.Cmd.Input))
 		stdin = "this is not the input"
+	case "dev-stdin":
+		args = append(args, "/dev/stdin") // FILE that is not a regular file
+	case "fifo":
+		p := filepath.Join(dir, "input.fifo")
+		if err := syscall.Mkfifo(p, 0o600); err != nil {
+			panic(err)
+		}
+		go func(content string) {
+			// give up if nobody ever opens the reading end
+			f, err := os.OpenFile(p, os.O_WRONLY, 0)
+			if err != nil {
+				return
+			}
+			f.WriteString(content)
+			f.Close()
+		}(c.Cmd.Input)
+		defer func() {
+			// unblock the writer if the command never opened the FIFO
+			if f, err := os.OpenFile(p, os.O_RDONLY|syscall.O_NONBLOCK, 0); err == nil {
+				f.Close()
+			}
+		}()
+		args = append(args, p)
+		stdin = "this is not the input"
 	}
 	outFile := ""
 	if c.Out == "file" || c.Out == "existing-file" {
@@ -297,6 +327,17 @@ func c12IOEval(e *Env, c c12IOCase, base *runOut) {
 	}
 	if r.Exit != base.exit {
 		fail("C12/io-path/status/"+c.In+"-"+c.Out, fmt.Sprintf("exit status %d, with stdin->stdout it is %d: %s", r.Exit, base.exit, firstLine(r.Stderr)))
+		return
+	}
+	if base.exit != 0 {
+		// the command fails on this input: every path must fail alike and print no result
+		if len(r.Stdout) != 0 {
+			if c.Debug && goyaccDebugOnly(r.Stdout) {
+				fail("C12/io-path/goyacc-debug-lines", fmt.Sprintf("--debug changes stdout of a failing command: %q", trunc(string(r.Stdout), 80)))
+			} else {
+				fail("C12/io-path/stdout-on-failure/"+c.In+"-"+c.Out, fmt.Sprintf("a result on stdout although the command fails: %q", trunc(string(r.Stdout), 80)))
+			}
+		}
 		return
 	}
 	got := r.Stdout
@@ -562,7 +603,7 @@ func runC12(e *Env) {
 		}
 		ins := []string{"stdin"}
 		if c.Input != "" {
-			ins = []string{"stdin", "dash", "file", "stdin-chunked"}
+			ins = []string{"stdin", "dash", "file", "stdin-chunked", "fifo", "dev-stdin"}
 		}
 		for _, in := range ins {
 			for _, out := range []string{"stdout", "file", "existing-file"} {
@@ -577,7 +618,7 @@ func runC12(e *Env) {
 		e.R.Trace(1)
 		e.R.NonTrivial("io" + fmt.Sprint(i))
 	})
-	e.R.AddPart(ev.Part{Name: "io-paths", Enumerated: "every data-producing command x input by {stdin, -, FILE, stdin delivered in three pieces by a slow writer} (where it reads one) x output to {stdout, -o new file, -o existing longer file} x --debug {off, on}: result bytes and status equal to stdin->stdout", Executions: int64(len(ios)), Exhaustive: true})
+	e.R.AddPart(ev.Part{Name: "io-paths", Enumerated: "every data-producing command x input by {stdin, -, FILE, stdin delivered in three pieces by a slow writer, FILE = a named pipe, FILE = /dev/stdin} (where it reads one) x output to {stdout, -o new file, -o existing longer file} x --debug {off, on}: result bytes and status equal to stdin->stdout", Executions: int64(len(ios)), Exhaustive: true})
 
 	// ---- (4) supplementary, not deciding: repetition under GOMAXPROCS 1, 2, 16
 	var reps []c12Cmd
@@ -604,6 +645,15 @@ func runC12(e *Env) {
 		reps = append(reps, c12Cmd{"text-conv-long-mixed", []string{"text", "conv", "syllable"}, longText(150, bad)})
 	}
 	reps = append(reps, c12Cmd{"text-conv-long", []string{"text", "conv", "syllable"}, longText(150, -1)})
+	// many chords with key changes in between (a converter shared between workers would show here)
+	var kc strings.Builder
+	for k := 0; k < 700; k++ {
+		kc.WriteString([]string{"C[1] ", "E/G#[1] ", "Bb_7[1] ", "F#m[1] "}[k%4])
+		if k%97 == 50 {
+			kc.WriteString("G[1]{key=" + []string{"G", "Eb", "F#m", "Cb"}[(k/97)%4] + "} ")
+		}
+	}
+	reps = append(reps, c12Cmd{"text-conv-long-key-changes", []string{"text", "conv", "syllable"}, kc.String()})
 	mc.ParFor(len(reps), func(i int) { c12Repeat(e, reps[i]) })
 	// the environment is no input: other locale, time zone, home, temp dir, working directory; and a later point in time
 	envs := [][]string{
